@@ -99,7 +99,7 @@ func buildEngine(p *propCfg) string {
 	if altTag != "" {
 		args = append(args, "-modfile", altModfile())
 	}
-	if p.Overlay != "" {
+	if p.Overlay != "" || p.Engine == "nodesim" {
 		ov := buildOverlay(p)
 		args = append(args, "-overlay", ov)
 	}
@@ -117,21 +117,7 @@ func buildEngine(p *propCfg) string {
 
 // buildOverlay regenerates the instrumentation overlay from the current /repo.
 func buildOverlay(p *propCfg) string {
-	dir := filepath.Join(root, ".build", "overlay-"+p.Overlay+altTag)
-	tool := filepath.Join(root, ".build", "instrument")
-	cmd := exec.Command("go1.26.8", "build", "-o", tool, "./tools/instrument")
-	cmd.Dir = root
-	cmd.Env = goEnv()
-	if out, err := cmd.CombinedOutput(); err != nil {
-		fatal2("build of instrumenter failed: %v\n%s", err, out)
-	}
-	cmd = exec.Command(tool, "-profile", p.Overlay, "-repo", repoPath, "-out", dir)
-	cmd.Dir = root
-	cmd.Env = goEnv()
-	if out, err := cmd.CombinedOutput(); err != nil {
-		fatal2("instrumenter failed: %v\n%s", err, out)
-	}
-	return filepath.Join(dir, "overlay.json")
+	return pinOverlay(filepath.Join(root, ".build", "overlay-"+p.Overlay+altTag))
 }
 
 type job struct {
@@ -373,7 +359,8 @@ func main() {
 		jobs = append(jobs, job{idx: i, seed: simkit.SplitMix(seed ^ simkit.SplitMix(propHash(prop)+uint64(i))), checks: n})
 		done += n
 	}
-	deadline := start.Add(time.Duration(tc.BudgetS) * time.Second)
+	// the run budget starts after the build (a cold build cache must not eat it)
+	deadline := time.Now().Add(time.Duration(tc.BudgetS) * time.Second)
 
 	results := make([]*jobResult, len(jobs))
 	var wg sync.WaitGroup
@@ -610,7 +597,17 @@ func writeEvidence(p *propCfg, tier string, seed uint64, m *simkit.Report, disti
 		}
 	}
 	samples := []any{}
-	for _, s := range m.Samples {
+	for i, s := range m.Samples {
+		if i >= 2 {
+			break
+		}
+		// keep evidence files readable: a sample is a plan plus the head of its trace
+		if len(s.Trace) > 40 {
+			s.Trace = append(append([]string{}, s.Trace[:39]...), fmt.Sprintf("… (%d more lines)", len(s.Trace)-39))
+		}
+		if len(s.Plan) > 6000 {
+			s.Plan = json.RawMessage(fmt.Sprintf("%q", string(s.Plan[:6000])+"… (truncated)"))
+		}
 		samples = append(samples, s)
 	}
 	if len(samples) == 0 {
